@@ -22,10 +22,11 @@ EXPLANATION = (
     "built from plain lists and stored into X carry index=X.index); R-rowwise (no cross-row "
     "aggregate has a data dependence into what transform stores or returns; a test on any()/all() of "
     "the rows may only guard assertions and writes restricted to exactly those rows; frame-wide "
-    "replacements are keyed by feature, one column each)."
+    "replacements are keyed by feature, one column each); R-readonly-queries (summary, to_json and the "
+    "label-table builder have no effect on self, so they cannot change what a later transform returns)."
 )
 NOT_DECIDED = "equality of frames on data; pandas' own copy-on-write semantics"
-FLOORS = {"R-transform-readonly": 24, "R-copy-true": 24, "R-fit-returns-self": 12, "R-index-kept": 1, "R-rowwise": 12, "R-fit-transform": 2}
+FLOORS = {"R-transform-readonly": 24, "R-copy-true": 24, "R-fit-returns-self": 12, "R-index-kept": 1, "R-rowwise": 12, "R-fit-transform": 2, "R-readonly-queries": 30}
 
 CALLER_DATA = ("p:X", "p:y", "p:X_dev", "p:y_dev")
 
@@ -280,7 +281,33 @@ def rule_aggregate_control(ctx):
             ctx.ob(R, construct(fi, f"{checked} aggregate-guarded write(s), each restricted to the rows the aggregate ranges over"), True, loc(fi))
 
 
+def rule_readonly_queries(ctx):
+    """summary(), to_json() and the label-table builder only read the fitted state: otherwise a
+    later transform differs from an earlier one (frozen exception: history() annotates its own stored
+    records with their feature name, which no other code reads)."""
+    R = "R-readonly-queries"
+    eng = ctx.effects
+    for ci in concrete_classes(ctx.repo):
+        for meth in ("summary", "to_json", "_get_labels_per_values"):
+            fi = ctx.repo.lookup_method(ci, meth)
+            if fi is None:
+                continue
+            summ = eng.summary(fi, ci, None)
+            bad = [e for e in summ.events if e.path[0] == "self"]
+            seen = set()
+            for e in bad:
+                k = (e.fn, e.expr)
+                if k in seen:
+                    continue
+                seen.add(k)
+                ctx.ob(R, f"{ci.name}.{meth}::{e.fn}::{e.kind} {path_str(e.path)}::{e.expr}", False, e.where,
+                       "a query method modifies the fitted state: transform / to_json after it differ from before")
+            if not bad:
+                ctx.ob(R, f"{ci.name}.{meth}::no effect on self", True, loc(fi))
+
+
 def check(ctx):
+    rule_readonly_queries(ctx)
     rule_columns_scoped(ctx)
     rule_aggregate_control(ctx)
     rule_transform_readonly(ctx)
@@ -302,6 +329,7 @@ MUTANTS = [
     M("transform drops features missing from X (mutates fitted state)", [(F_BASE, "        # transforming quantitative features\n        if len(self.quantitative_features) > 0:", "        for feature in [f for f in self.features if f not in x_copy]:\n            self._remove_feature(feature)\n        # transforming quantitative features\n        if len(self.quantitative_features) > 0:")], "R-transform-readonly"),
     M("unknown values learnt at transform", [(F_BASE, "        # checking for unexpected values for each feature\n        for feature in features:\n            # unexpected values for this feature\n            unexpected = [\n                val for val in uniques[feature] if val not in self.values_orders[feature].values()\n            ]\n",
        "        # checking for unexpected values for each feature\n        for feature in features:\n            # unexpected values for this feature\n            unexpected = [\n                val for val in uniques[feature] if val not in self.values_orders[feature].values()\n            ]\n            for val in unexpected:\n                self.values_orders[feature].append(val)\n")], "R-transform-readonly"),
+    M("summary overwrites the fitted label table", [(F_BASE, "        labels_per_values: dict[str, dict[Any, Any]] = {}\n\n        # iterating over each feature", "        labels_per_values: dict[str, dict[Any, Any]] = self.labels_per_values\n\n        # iterating over each feature")], "R-readonly-queries", "summary"),
     M("index=X.index dropped", [(F_BASE, "{feature: values for feature, values in all_transformed}, index=X.index\n", "{feature: values for feature, values in all_transformed}\n")], "R-index-kept", quick=True),
     M("return self dropped in OrdinalDiscretizer.fit", [(F_QUAL, "        # discretizing features based on each feature's values_order\n        super().fit(x_copy, y)\n\n        return self", "        # discretizing features based on each feature's values_order\n        super().fit(x_copy, y)")], "R-fit-returns-self", "OrdinalDiscretizer"),
     M("fit returns the result of super().fit only when verbose", [(F_TYPE, "        super().fit(X, y)\n\n        return self", "        super().fit(X, y)\n        if self.verbose:\n            return self")], "R-fit-returns-self", "StringDiscretizer"),
